@@ -269,6 +269,12 @@ def run(pm, ctx):
                      'validators return the value unchanged (Nullable delegates every non-null '
                      'value) so that what is encoded is what was set (shared with C08-R2)')
 
+    ctx.import_rules(pm, 'C04', {'C04-R9'}, 'C05-R9',
+                     'a primitive validator hands back the value it was given: what is encoded is '
+                     'what was set (shared with C04-R9)')
+    ctx.import_rules(pm, 'C02', {'C02-R5'}, 'C05-R10',
+                     'required / optional field listings of the IR are complete, parent first, with '
+                     'complementary predicates (shared with C02-R5)')
     from ..effects import run_decisions
     from ..ownership import OWN
     run_decisions(pm, ctx, 'C05-RD', OWN['C05'])
